@@ -9,6 +9,13 @@ for d in seeded/*/; do
   out=$(tools/mutant.sh run $d $id 2>&1)
   rc=$(echo "$out" | grep -o "RESULT exit=[0-9]*" | tail -1 | sed 's/RESULT exit=//')
   key=$(echo "$out" | grep -m1 "^VIOLATION" | sed 's/.*key="//; s/" count.*//')
+  if [ "$rc" = "0" ]; then # not observable by its own property's check: try the checks named in meta.json "also_run"
+    for other in $(python3 -c "import json;print(' '.join(json.load(open('$d/meta.json')).get('also_run',[])))" 2>/dev/null); do
+      out=$(tools/mutant.sh run $d $other 2>&1)
+      rc2=$(echo "$out" | grep -o "RESULT exit=[0-9]*" | tail -1 | sed 's/RESULT exit=//')
+      if [ "$rc2" = "1" ]; then rc=1; key="[$other] $(echo "$out" | grep -m1 "^VIOLATION" | sed 's/.*key="//; s/" count.*//')"; break; fi
+    done
+  fi
   printf '%s\t%s\t%s\t%s\n' "$n" "$id" "$rc" "$key" | tee -a seeded/RESULTS.tsv.new
 done
 mv seeded/RESULTS.tsv.new seeded/RESULTS.tsv
